@@ -4,6 +4,7 @@ import (
 	"bytes"
 	"encoding/hex"
 	"fmt"
+	consumertypes "github.com/cosmos/interchain-security/v7/x/ccv/consumer/types"
 	"strings"
 	"time"
 
@@ -107,6 +108,11 @@ func (c Slash) NewWorker(stats *engine.Stats) (engine.Worker, error) {
 		return nil, err
 	}
 	xw := &XWorld{P: p, CA: env.NewConsumerApp(), Stats: stats, Delay: 1}
+	if c.Variant == "retry" {
+		// a retry delay that differs from every other duration parameter of the consumer (2 h; the transfer
+		// timeout is 1 h): retries are judged against the parameter as stored, not against a getter
+		xw.ConsumerGenesis = func(g *consumertypes.GenesisState) { g.Params.RetryDelayPeriod = 2 * time.Hour }
+	}
 	w := &slWorker{cfg: c, w: xw, p: p, stats: stats, kOld: env.NewConsKey("sl-old"), kNew: env.NewConsKey("sl-new"), kUnk: env.NewConsKey("sl-unknown"), cons: []string{"0", "1"}, maxPow: 5}
 	st := p.Root.Branch()
 	A := p.Users[0].Addr.String()
@@ -455,7 +461,7 @@ func (w *slWorker) cblock(x *slNode, cid string) (engine.Node, []V) {
 	pre := c.C[cid]
 	rec, hasRec := k.GetSlashRecord(pre.Ctx)
 	pending := k.GetPendingPackets(pre.Ctx)
-	delay := k.GetRetryDelayPeriod(pre.Ctx)
+	delay := k.GetConsumerParams(pre.Ctx).RetryDelayPeriod
 	_, chanOK := k.GetProviderChannel(pre.Ctx)
 	before := len(c.L[cid].C2P.Packets)
 	member := map[string]bool{}
@@ -1033,7 +1039,7 @@ func (w *slWorker) wait(x *slNode, dt time.Duration) (engine.Node, []V) {
 		s := c.C[cid]
 		rec, has := k.GetSlashRecord(s.Ctx)
 		_, ok := k.GetProviderChannel(s.Ctx)
-		q := pre{has: has, pending: k.GetPendingPackets(s.Ctx), delay: k.GetRetryDelayPeriod(s.Ctx), chanOK: ok, before: len(c.L[cid].C2P.Packets), end: s.Time()}
+		q := pre{has: has, pending: k.GetPendingPackets(s.Ctx), delay: k.GetConsumerParams(s.Ctx).RetryDelayPeriod, chanOK: ok, before: len(c.L[cid].C2P.Packets), end: s.Time()}
 		q.rec.waiting, q.rec.send = rec.WaitingOnReply, rec.SendTime
 		pres[cid] = q
 	}
